@@ -1115,6 +1115,7 @@ fn scenario_blocking_ask_vs_end(seed: u64) {
         // as for ask: a request whose handler completed was answered before the mailbox closed
         if *o != "ok" && journal.lock().unwrap().handled.contains(&(100 + c as u64)) {
             violation("C17", "error-although-replied", format!("blocking_ask {} returned {o} (and recorded a dead letter) although its handler had completed and replied", 100 + c));
+            violation("C13", "dead-letter-although-replied", format!("blocking_ask {} recorded a '{o}' dead letter although the request was delivered and answered", 100 + c));
         }
     }
 }
